@@ -233,6 +233,39 @@ func c02Run(u *Unit) {
 		}
 		tHeal := s.W.Now().Seconds()
 		during := ackedBetween(sc, tFault, tHeal)
+		// "exactly one writable master": once everything is reachable again and a manager exists, a second server that
+		// accepts writes (not read-only, not offline, not the recorded master) is fenced within a minute - long before
+		// anything as slow as a resetup could repair it
+		stopWatch := make(chan struct{})
+		defer close(stopWatch)
+		go func() {
+			since := map[string]time.Duration{}
+			for {
+				select {
+				case <-stopWatch:
+					return
+				case <-time.After(time.Second):
+				}
+				rec, mgr := s.Master(), lockHolder(s)
+				now := s.W.Now()
+				for h, x := range s.W.Snapshot() {
+					if mgr == "" || rec == "" || h == rec || !x.Up || x.ReadOnly || x.Offline || !contains(hosts, h) {
+						delete(since, h)
+						continue
+					}
+					t0, ok := since[h]
+					if !ok {
+						since[h] = now
+						continue
+					}
+					if now-t0 > 60*time.Second {
+						sc.Violate("C02", "second-writable-server-not-fenced:"+sp.Fault, fmt.Sprintf("%s has been accepting writes (not read-only, not offline) beside the recorded master %s since %.0fs - for more than a minute with every host reachable and %s managing", h, rec, t0.Seconds(), mgr), s.W.Describe())
+						delete(since, h)
+						return
+					}
+				}
+			}
+		}()
 		// quiesce: canonical, full list, and still canonical 30 s later
 		ok := false
 		deadline := time.Now().Add(c02Bound)
